@@ -1,0 +1,21 @@
+//go:build verif
+
+// Contracts for the govc verifier (see /verif/DESIGN.md). Comment-only file: with the
+// "verif" build tag off it is not compiled; with it on it contains only the package clause.
+
+package memory
+
+// ---- C01 / C02: the chunk handed out for a file offset is described by one TOC entry ----
+// Offset, size and digest returned for an offset all come from the same TOC entry (the one the eStargz reader found for
+// the offset), and the digest is that entry's chunk digest when it has one, else its file digest: the reader verifies the
+// bytes of [off, off+size) against exactly this digest.
+//@ func estargz.(*Reader).ChunkEntryForOffset
+//@   trusted
+//@   modifies nothing
+//@   ensures ok ==> e != nil
+//@ func (r *file) ChunkEntryForOffset
+//@   props C01,C02
+//@   requires r.r != nil && r.r.r != nil && r.e != nil
+//@   modifies nothing
+//@   ensures[C01,C02] ok ==> e != nil && off == e.ChunkOffset && size == e.ChunkSize && dgst == (e.ChunkDigest != "" ? e.ChunkDigest : e.Digest)
+//@   ensures[C01,C02] !ok ==> off == 0 && size == 0 && dgst == ""
